@@ -18,7 +18,7 @@ Definition seq_dec (f : spec -> list pystr -> bool) :=
   fix seq (l : list spec) (w : list pystr) : bool :=
     match l with
     | [] => is_nil w
-    | i :: r => existsb (fun p => f i (fst p) && seq r (snd p)) (splits w)
+    | i :: r => existsb (fun p => if f i (fst p) then seq r (snd p) else false) (splits w)
     end.
 
 Definition alt_dec (f : spec -> list pystr -> bool) :=
@@ -28,9 +28,10 @@ Definition alt_dec (f : spec -> list pystr -> bool) :=
     | a :: r => f a w || alt r w
     end.
 
-(** [counts strict alt fuel w]: every k such that w is a concatenation of k words accepted by
-    [alt] (non-empty ones when [strict]); the lenient variant only needs the counts up to
-    the first repetition of an empty occurrence, see [inLlen]. *)
+(** [counts alt fuel w]: every k such that w is a concatenation of k NON-EMPTY words accepted
+    by [alt] (fuel: one unit per occurrence, [S (length w)] suffices).
+    The conditionals are written with [if] rather than [&&] so that evaluation by
+    [vm_compute] (call by value) prunes: a split is only pursued when its first part matches. *)
 Definition counts (alt : list pystr -> bool) :=
   fix counts (fuel : nat) (w : list pystr) : list nat :=
     match fuel with
@@ -54,7 +55,7 @@ Fixpoint inL (mixed : bool) (sp : spec) (w : list pystr) {struct sp} : bool :=
       (fix seq (l : list spec) (w : list pystr) : bool :=
          match l with
          | [] => is_nil w
-         | i :: r => existsb (fun p => inL mixed i (fst p) && seq r (snd p)) (splits w)
+         | i :: r => existsb (fun p => if inL mixed i (fst p) then seq r (snd p) else false) (splits w)
          end) items w
   | Cho alts lo hi =>
       existsb (count_ok mixed lo hi)
